@@ -204,6 +204,7 @@ def other_cases():
         ("try_to_decimal(try_to_number('12.5', 5, 1)::varchar, 10, 2)", Decimal("12.50")), ("sha2(sha2('a'))", hashlib.sha256(sha.encode()).hexdigest()),
         ("trim(trim('  a '))", "a"), ("regexp_substr(regexp_substr('hello world', 'l+o w'), 'o w')", "o w"), ("equal_null(equal_null(1, 1), true)", True),
         ("to_date(to_date('2020-01-02'))", datetime.date(2020, 1, 2)),
+        ("dateadd(quarter, 1, '2021-01-31'::date)", datetime.date(2021, 4, 30)), ("dateadd(quarter, -1, c2)", datetime.datetime(2019, 10, 31, 10, 30)),
     ]
 
 
@@ -337,7 +338,7 @@ def main():
             # outside `supported`: attribute the difference to the recorded finding whose construct occurs in the expression
             fid = None
             if not sup:
-                for marker, f_ in (("dateadd(quarter", "C10-dateadd-quarter"), ("datediff(week", "C10-datediff-week-epoch"), ("datediff(hour", "C10-datediff-hour-epoch"), ("try_to_", "C10-try-to-decimal-number"),
+                for marker, f_ in (("datediff(week", "C10-datediff-week-epoch"), ("datediff(hour", "C10-datediff-hour-epoch"), ("try_to_", "C10-try-to-decimal-number"),
                                    ("to_decimal(", "C10-decimal-narrowing-truncates"), ("to_number(", "C10-decimal-narrowing-truncates"), ("to_numeric(", "C10-decimal-narrowing-truncates"),
                                    ("dateadd(", "C10-dateadd-date-column-type")):
                     if marker in sql:
@@ -440,8 +441,7 @@ def main():
         except Exception:  # noqa: BLE001
             pass
     # ---- (5) recorded findings: replay their witnesses
-    for fid, sql, want_v in [("C10-dateadd-quarter", "select dateadd(quarter, 1, '2021-01-31'::date)", datetime.date(2021, 4, 30)),
-                             ("C10-dateadd-date-column-type", "select dateadd(day, 1, c1) from t where id = 0", datetime.date(2020, 2, 1)),
+    for fid, sql, want_v in [("C10-dateadd-date-column-type", "select dateadd(day, 1, c1) from t where id = 0", datetime.date(2020, 2, 1)),
                              ("C10-decimal-narrowing-truncates", "select to_decimal(1.45, 10, 1)", Decimal("1.5")), ("C10-array-agg-empty", "select array_agg(customer_id) from j1 where 1 = 0", "[]"),
                              ("C10-random-second", "select random(1) as a, random(1) as b", None), ("C10-to-timestamp-scale", "select to_timestamp(1600000000, 3)", datetime.datetime(1970, 1, 19, 12, 26, 40))]:
         ck.cov["evaluations"] += 1
